@@ -4,7 +4,11 @@ What is read from the source (AST only) and emitted as Lean definitions that the
 * `Parameter.__init__`: the `self.is_required = ...` rule, as a Boolean function of (default given?, required argument);
 * `Parameter.validate`: three shape facts (None test first, loop over all of `self.validators`, each validator is fed its
   predecessor's output);
-* `_wrapper_content`: the order of the three loops and which of them sit under `if not ignore_input:`;
+* `_wrapper_content`: the order of the three loops and which of them sit under `if not ignore_input:`; the `wants_args = ...`
+  rule as a Boolean function of (the text `*args` occurs in `str(signature)`?, a signature parameter is named `args`?) and the
+  test of the `zip` branch as a Boolean function of (k == 'args'?, wants_args?);
+* two scope facts: every variable that `_wrapper_content` / `wrapper` / `async_wrapper` / `_split_by_signature` mutates is bound
+  inside that very function (the bookkeeping of a call is per call), and `Parameter.validate` keeps no state on `self`;
 * `wrapper` and `async_wrapper`: the dispatch after `result = _wrapper_content(...)`, flattened to guarded statements
   (enclosing `if return_as == ReturnAs.X`, enclosing `if 'self' in result`, action = dict filter | `return func(<form>)`),
   the `if` of the KWARGS_WITHOUT_NONE dict comprehension as a Boolean function of (value is None?, value truthy?),
@@ -191,6 +195,95 @@ def gen_loop_order(fn):
     if sorted(kinds) != ['kw', 'pos', 'unused']:
         raise Skip(f'_wrapper_content: expected the three loops exactly once, found {kinds}')
     return found
+
+
+# ---------------------------------------------------------------- _wrapper_content: the *args test
+
+def gen_wants_args(top, fn):
+    """`wants_args = <rule>` (wherever in `validate` it is assigned) and the test of the branch that uses it"""
+    rules = [s for s in ast.walk(top) if isinstance(s, ast.Assign) and len(s.targets) == 1 and is_name(s.targets[0], 'wants_args')]
+    if len(rules) != 1:
+        raise Skip(f'validate: expected exactly one assignment to wants_args, found {len(rules)}')
+
+    def is_const(n, v):
+        return isinstance(n, ast.Constant) and n.value == v
+
+    def rule_atom(n):
+        if isinstance(n, ast.Compare) and len(n.ops) == 1 and isinstance(n.ops[0], (ast.In, ast.NotIn)):
+            l, r = n.left, n.comparators[0]
+            neg = '!' if isinstance(n.ops[0], ast.NotIn) else ''
+            if is_const(l, '*args') and isinstance(r, ast.Call) and is_name(r.func, 'str') and len(r.args) == 1 and not r.keywords \
+                    and is_name(r.args[0], 'signature'):
+                return neg + 'starArgsInText'
+            if is_const(l, 'args') and isinstance(r, ast.Attribute) and r.attr == 'parameters' and is_name(r.value, 'signature'):
+                return neg + 'anyParamNamedArgs'
+        return None
+    rule = bool_expr(rules[0].value, rule_atom)
+    tests = [s for s in ast.walk(fn) if isinstance(s, ast.If) and any(is_name(x, 'wants_args') for x in ast.walk(s.test))]
+    if len(tests) != 1:
+        raise Skip(f'_wrapper_content: expected exactly one branch on wants_args, found {len(tests)}')
+    if not any(isinstance(x, ast.Call) and is_name(x.func, 'zip') for x in ast.walk(tests[0])):
+        raise Skip('_wrapper_content: the branch on wants_args is not the zip branch')
+
+    def test_atom(n):
+        if is_name(n, 'wants_args'):
+            return 'wantsArgs'
+        if isinstance(n, ast.Compare) and len(n.ops) == 1 and isinstance(n.ops[0], (ast.Eq, ast.NotEq)):
+            l, r = n.left, n.comparators[0]
+            if (is_name(l) and is_const(r, 'args')) or (is_name(r) and is_const(l, 'args')):
+                return 'keyIsArgs' if isinstance(n.ops[0], ast.Eq) else '!keyIsArgs'
+        return None
+    return rule, bool_expr(tests[0].test, test_atom)
+
+
+# ---------------------------------------------------------------- scope facts (state kept between / shared by calls)
+
+MUTATORS = {'append', 'extend', 'insert', 'pop', 'popitem', 'clear', 'update', 'remove', 'setdefault', 'sort', 'reverse', 'add', 'discard'}
+
+
+def own_nodes(fn):
+    """the nodes of a function body without the bodies of nested functions / lambdas / classes"""
+    out, todo = [], list(fn.body)
+    while todo:
+        n = todo.pop()
+        out.append(n)
+        for ch in ast.iter_child_nodes(n):
+            if not isinstance(ch, (ast.FunctionDef, ast.AsyncFunctionDef, ast.Lambda, ast.ClassDef)):
+                todo.append(ch)
+    return out
+
+
+def bookkeeping_is_per_call(fn):
+    nodes = own_nodes(fn)
+    if any(isinstance(n, (ast.Global, ast.Nonlocal)) for n in nodes):
+        return False
+    bound = {a.arg for a in fn.args.args + fn.args.kwonlyargs + fn.args.posonlyargs}
+    bound |= {a.arg for a in (fn.args.vararg, fn.args.kwarg) if a is not None}
+    for n in nodes:
+        if isinstance(n, ast.Name) and isinstance(n.ctx, ast.Store):
+            bound.add(n.id)            # plain (re)binding: assignment, loop target, comprehension variable, `as`
+    mutated = set()
+    for n in nodes:
+        if isinstance(n, (ast.Subscript, ast.Attribute)) and isinstance(n.ctx, (ast.Store, ast.Del)) and is_name(n.value):
+            mutated.add(n.value.id)
+        if isinstance(n, ast.Call) and isinstance(n.func, ast.Attribute) and n.func.attr in MUTATORS and is_name(n.func.value):
+            mutated.add(n.func.value.id)
+    return mutated <= bound
+
+
+def validate_is_stateless(ptree):
+    fn = find_func(ptree, 'validate', cls='Parameter')
+    for n in ast.walk(fn):
+        if isinstance(n, (ast.Global, ast.Nonlocal)):
+            return False
+        if isinstance(n, (ast.Attribute, ast.Subscript)) and isinstance(n.ctx, (ast.Store, ast.Del)):
+            return False               # `self.<attr> = …`, `self.<attr>[…] = …`, `<anything>.<attr> = …`
+        if isinstance(n, ast.Call) and is_name(n.func) and n.func.id in ('setattr', 'delattr'):
+            return False
+        if isinstance(n, ast.Call) and isinstance(n.func, ast.Attribute) and n.func.attr in MUTATORS \
+                and any(is_name(x, 'self') for x in ast.walk(n.func.value)):
+            return False               # `self.<attr>.append(…)`
+    return True
 
 
 # ---------------------------------------------------------------- wrapper / async_wrapper dispatch
@@ -421,6 +514,9 @@ def gen_validate(repo):
     prog, keep, aw = gen_prog(find_func(tree, 'wrapper'), False)
     aprog, akeep, aaw = gen_prog(find_func(tree, 'async_wrapper'), True)
     shortcut, stops, split_ret = gen_split(find_func(tree, '_split_by_signature'))
+    wants_rule, zip_test = gen_wants_args(find_func(tree, 'validate'), find_func(tree, '_wrapper_content'))
+    per_call = all(bookkeeping_is_per_call(find_func(tree, f)) for f in ('_wrapper_content', 'wrapper', 'async_wrapper', '_split_by_signature'))
+    stateless = validate_is_stateless(ptree)
     under = ' | '.join(f'.{k} => {lean_bool(u)}' for k, u in sorted(loops))
     return HEADER.format(rel=REL + ' and ' + REL_P) + f'''set_option linter.unusedVariables false
 namespace PedVerif.Gen.Validate
@@ -447,6 +543,18 @@ def loopOrder : List Loop := [{', '.join('.' + k for k, _ in loops)}]
 /-- the loop sits under `if not ignore_input:` -/
 def underIgnoreInput : Loop → Bool
   | {under}
+
+/-- `wants_args = <rule>` as a function of "the text `*args` occurs in `str(signature)`" and "a parameter of the
+    signature is named `args`" -/
+def wantsArgsRule (starArgsInText anyParamNamedArgs : Bool) : Bool := {wants_rule}
+/-- the test of the `zip` branch of the positional loop, as a function of "k == 'args'" and `wants_args` -/
+def zipBranchTest (keyIsArgs wantsArgs : Bool) : Bool := {zip_test}
+/-- every variable that `_wrapper_content`, `wrapper`, `async_wrapper` or `_split_by_signature` mutates (item assignment,
+    `append`, `pop`, `clear`, …) is bound by an assignment inside that very function: the bookkeeping of a call
+    (`result`, `used_parameter_names`, `used_args`) is per call, not shared between calls -/
+def bookkeepingIsPerCall : Bool := {lean_bool(per_call)}
+/-- `Parameter.validate` assigns no attribute of `self` and declares no `global` / `nonlocal`: no state is kept between calls -/
+def parameterValidateIsStateless : Bool := {lean_bool(stateless)}
 
 /-! ### `wrapper` / `async_wrapper`: the hand-over to the decorated function -/
 
